@@ -19,7 +19,14 @@ CAP = 600
 def cases(tier, seed):
     from vlib import gen
     # the samplers differ most where RandomGen counts by itself: preambles, exclusions, uncrossed sources (K12)
-    return D.spec_cases(tier, seed, gen.CLASSES + ["K12", "K7", "K12"], 340, 1900, "c07")
+    out = D.spec_cases(tier, seed, gen.CLASSES + ["K12", "K7", "K12"], 340, 1900, "c07")
+    # appended stream: combinators around blocks with transition/window factors (undecided for R, fine for a
+    # differential oracle)
+    import random
+    from vlib.props.c08 import nest_with_windows
+    for i in range(250 if tier == "thorough" else 40):
+        out.append({"cls": "combinator-with-window", "spec": nest_with_windows(random.Random("c07w/%s/%d" % (seed, i)))})
+    return out
 
 
 def run_case(case):
